@@ -623,6 +623,12 @@ def rule_g(ctx):
             for x in region:
                 tt = cb.term(x)
                 if tt["k"] == "call" and callee_method(tt) == meth:
+                    # ... on every path through the arm: nothing but the dispatch on the line's kind decides whether it runs
+                    extra = {e for e in cb.cdeps_transitive(x) if e[0] != disp} - set(cb.cdeps_transitive(tb))
+                    if extra:
+                        ctx.violation("C05-G", "normalise:%s→%s:every-line" % (nm, meth), tt["span"], fn_key(cb),
+                                      "only some %s lines of a cell are brought to the column width (the call is conditional inside "
+                                      "its arm): a line left shorter shifts every bar to its right" % nm.lower())
                     # the width is a captured variable whose value, where the closure is created, is the
                     # sub-renderer's own width (`sub_r.width`)
                     o = origin(cb, tt["args"][1])
